@@ -277,6 +277,9 @@ def run_C04(ctx):
     correspondence(ctx, [exhaustive_histories(d)], proj_shape, oracle_wf, 'C04 well-formedness', 'exhaustive<=%d' % d, model_is_spec=False, probe_ops=('wf',))
     ctx['cov']['exhaustive_histories'] = {'alphabet': small_alphabet(), 'max_len': d}
     api_correspondence(ctx, ['structure'], s, n, proj_shape, oracle_wf, 'C04 well-formedness', model_is_spec=False, probe_ops=('wf',))
+    # "...succeeding or failing": a call interrupted by an allocation failure whose handler jumps out of the library
+    # leaves a well-formed tree (lengths, indices, member lookup agree with the children; walked under ASan)
+    c16_hooks_under_faults(ctx, 'C04 well-formedness after an interrupted call')
 
 def run_C05(ctx):
     s, n = sizes(ctx, (6, 250), (300, 1000))
@@ -413,7 +416,7 @@ def c16_strings(ctx):
                 do('destroy')
     correspondence(ctx, [fn], proj_full, None, 'C16 string copies and lifetimes', 'strings')
 
-def c16_hooks_under_faults(ctx):
+def c16_hooks_under_faults(ctx, what='C16 hooks released exactly once'):
     """C16 x C13: overrides, removals and a re-read on a tree with hooks, every allocation of that history failed in turn
     with a fatal-error handler that jumps out of the library; after config_destroy every attached hook has been
     released exactly once (harness/drv_alloc.c: allochooks)"""
@@ -430,13 +433,13 @@ def c16_hooks_under_faults(ctx):
             if i < len(outs) and outs[i] != 'hooks ok':
                 return i, 'allocation %d of the history fails, the handler jumps out, the configuration is destroyed: %s' % (k, outs[i])
         return None
-    correspondence(ctx, [fn], lambda op, out: 'count' if out.startswith('count') else out, oracle, 'C16 hooks released exactly once', 'alloc-faults',
+    correspondence(ctx, [fn], lambda op, out: 'count' if out.startswith('count') else out, oracle, what, 'alloc-faults',
                    driver='drv_alloc.c', extra=('-Wl,--wrap=malloc', '-Wl,--wrap=calloc', '-Wl,--wrap=realloc', '-Wl,--wrap=strdup'),
                    impl_env={'ASAN_OPTIONS': 'detect_leaks=0'})
 
 def run_C16(ctx):
     c16_strings(ctx)
-    c16_hooks_under_faults(ctx)
+    c16_hooks_under_faults(ctx, 'C16 hooks released exactly once')
     s, n = sizes(ctx, (6, 250), (300, 1000))
     api_correspondence(ctx, ['hooks'], s, n, proj_hooks, None, 'C16 destructor log')
 
@@ -772,6 +775,28 @@ def run_C13(ctx):
                    extra=('-Wl,--wrap=malloc', '-Wl,--wrap=calloc', '-Wl,--wrap=realloc', '-Wl,--wrap=strdup'),
                    impl_env={'ASAN_OPTIONS': 'detect_leaks=0'})
     ctx['cov']['exhaustive'] = True
+    # the C++ half of the property: "std::bad_alloc is thrown by the C++ API" - every k-th allocation requested by the
+    # library inside a scenario of C++ calls (several Config objects created and destroyed, reads, adds, assignments,
+    # exceptions, writes) fails in turn; each must surface as std::bad_alloc, never as a crash or a normal return
+    import props_c17
+    quick = ctx['tier'] == 'quick'
+    def cpp_fn(impl, rng, stats):
+        out = impl.do('cpp badalloc -1 0')
+        n = int(out.split(' ')[1]) if out.startswith('count ') else 0
+        ks = list(range(n)) if not quick else sorted(set(list(range(min(n, 40))) + [rng.below(max(n, 1)) for _ in range(60)] + [max(n - 1, 0)]))
+        for k in ks + [n, n + 7]:
+            impl.do('cpp badalloc %d %d' % (k, n))
+            stats['c13:cpp:' + ('fail' if k < n else 'none')] = stats.get('c13:cpp:' + ('fail' if k < n else 'none'), 0) + 1
+    def cpp_oracle(ops, outs):
+        for i, (op, out) in enumerate(zip(ops, outs)):
+            w = op.split(' ')
+            if len(w) == 4 and w[1] == 'badalloc' and int(w[2]) >= 0:
+                k, n = int(w[2]), int(w[3])
+                want = 'bad_alloc' if k < n else 'normal-same'
+                if out != want:
+                    return i, 'failing allocation %d of %d inside C++ calls -> %s (required: %s)' % (k, n, out, want)
+        return None
+    correspondence(ctx, [cpp_fn], props_c17.proj, cpp_oracle, 'C13 allocation failure handling (C++ API)', 'cpp-alloc-faults', driver='drv_cpp.cc', extra=props_c17.WRAP)
 
 def run_C14(ctx):
     def fn(impl, rng, stats):
@@ -788,6 +813,50 @@ def run_C14(ctx):
         return None
     correspondence(ctx, [fn], lambda op, out: out.split(' ')[0], oracle, 'C14 thread independence', 'threads', driver='drv_thr.c',
                    extra=('-lpthread',), san='-fsanitize=thread', impl_env={'TSAN_OPTIONS': 'halt_on_error=1 exitcode=66'})
+    c14_cpp_threads(ctx)
+
+K_CPP_HANDLER = 'C14:cpp-constructor-writes-global-handler'
+
+def c14_cpp_threads(ctx):
+    """The C++ part of C14: threads that each construct, use and destroy their own Config objects under TSan; every
+    report is collected.  Reports whose racing access is the fatal-error function pointer written by Config::Config()
+    are the recorded finding; any other report is a violation."""
+    listed = {f['key']: f['what'] for f in vlib.known_findings('C14')}
+    exe, log = vlib.build_harness(os.path.join(ctx['work'], 'hcpp'), 'drv_thr_cpp.cc', ('-lpthread',), san='-fsanitize=thread')
+    if not exe:
+        ctx['violation']('harness-build', 'the C++ thread harness no longer compiles against /repo', {'log': log[-3000:]}, False)
+        return
+    n_runs = 3 if ctx['tier'] == 'quick' else 25
+    sites = {}
+    for i in range(n_runs):
+        nt = (2, 4, 8, 16)[i % 4]
+        r = subprocess.run(['setarch', '-R', exe, str(nt), '15'], capture_output=True, text=True, timeout=600,
+                           env=dict(os.environ, TSAN_OPTIONS='halt_on_error=0 exitcode=0 report_signal_unsafe=0'))
+        if not r.stdout.startswith('done'):
+            ctx['violation']('failing-input', 'C14 thread independence (C++ API): the thread harness died: %s' % (r.stderr[-400:],),
+                             {'cmd': 'drv_thr_cpp %d 15' % nt, 'stderr': r.stderr[-3000:]}, True)
+            return
+        # one block per report; the recorded finding is exactly: both racing accesses are the write in
+        # libconfig_set_fatal_error_func reached from the constructor Config::Config()
+        for blk in r.stderr.split('=================='):
+            m = re.search(r'SUMMARY: ThreadSanitizer: data race (\S+) in (\S+)', blk)
+            if not m:
+                continue
+            callers = set(re.findall(r'#\d+ (libconfig::Config::[^ ]+)', blk))
+            fn = m.group(2)
+            if fn == 'libconfig_set_fatal_error_func' and callers != {'libconfig::Config::Config()'}:
+                fn = 'libconfig_set_fatal_error_func called from ' + ', '.join(sorted(callers))
+            sites[(os.path.basename(m.group(1)).split(':')[0], fn)] = blk
+    ctx['cov']['cpp_threads'] = {'runs': n_runs, 'race_sites': sorted('%s in %s' % k for k in sites)}
+    ctx['cov']['evaluations'] = ctx['cov'].get('evaluations', 0) + n_runs
+    for (f, fn), err in sites.items():
+        if fn == 'libconfig_set_fatal_error_func' and K_CPP_HANDLER in listed:
+            k = K_CPP_HANDLER + ': ' + listed[K_CPP_HANDLER]
+            if k not in ctx['known_hits']:
+                ctx['known_hits'].append(k)
+        else:
+            ctx['violation']('failing-input', 'C14 thread independence (C++ API): ThreadSanitizer reports a data race in %s (%s) between threads working on their own Config objects' % (fn, f),
+                             {'cmd': 'drv_thr_cpp <threads> 15 under -fsanitize=thread', 'report': err[:3000]}, True)
 
 COMMON_ASSUMPTIONS = [
     'NULL config_t*/config_setting_t*, dangling handles and non-NUL-terminated strings are out of contract',
